@@ -92,6 +92,9 @@ def _cls(f, op):
     for k, v in GETTERS.items():
         s = s.replace(k, v)
     s = re.sub(r"#\d+", "#", s)
+    # a computed address (alignment arithmetic) is written inline in one twin and behind a helper in the other: both are one opaque value
+    s = re.sub(r"\b(?!div\b|mul\b)[A-Za-z_][A-Za-z_0-9]*\((?:[^()]|\([^()]*\))*\)", "opaque", s)
+    s = re.sub(r"\b(?:and|or|xor|shl|lshr|ashr)#", "opaque", s)
     # sort inside div(...) arguments and at top level
     s = re.sub(r"div\(([^(),]*(?:\([^()]*\)[^(),]*)*),", lambda m_: "div(" + _resort(m_.group(1)) + ",", s)
     return _resort(s)
@@ -219,7 +222,7 @@ def signature(p, f, with_control=True):
                 vc = "const:%d" % const_int(v["ops"][0])
             else:
                 vi = f.inst(strip_casts(f, v))
-                if vi is not None and vi.op == "inttoptr":
+                if vi is not None and vi.op == "inttoptr" and const_int(vi.ops[0]) is not None:
                     vc = "const:%s" % const_int(vi.ops[0])
                 else:
                     vc = "value"
@@ -227,21 +230,51 @@ def signature(p, f, with_control=True):
         elif i.op == "icmp":
             a, b = _cls(f, i.ops[0]), _cls(f, i.ops[1])
             pr = i.d["pred"]
+            # a bare comparison is compared without its polarity (which branch is `then' is a matter of style; what runs under which
+            # outcome is in the control conditions of the stores):  == / !=  -> eq ;  a < b / a >= b -> lt (a, b) ;  a > b / a <= b -> lt (b, a)
             if pr in ("eq", "ne"):
                 x, y = sorted([a, b])
-                sig[("cmp", pr, x, y)] += 1
+                sig[("cmp", "eq", x, y)] += 1
             else:
-                # normalise direction: a < b  ==  b > a
-                flip = {"slt": "sgt", "sle": "sge", "ult": "ugt", "ule": "uge"}
-                if pr in flip:
-                    pr, a, b = flip[pr], b, a
-                sig[("cmp", pr, a, b)] += 1
+                uns = "u" if pr[0] == "u" else "s"
+                kind = pr[1:]
+                if kind in ("gt", "le"):
+                    a, b = b, a
+                sig[("cmp", uns + "lt", a, b)] += 1
         elif i.is_call():
             n = _callee_name(p, f, i)
             if n.startswith("llvm.dbg") or n in ("__clang_call_terminate", "llvm.trap", "os_top_length", "vlo_length"):
                 continue     # pure getters are inlined into the comparisons
+            g = p.m.functions.get(i.callee) if i.callee else None
+            if g is not None and not g.decl and g.module == f.module and _is_private_helper(g) and _depth[0] < 3 and g.name != f.name:
+                # a helper of this file that is not one of the paired operations: its effects belong to the caller
+                _depth[0] += 1
+                try:
+                    sub = signature(p, g, with_control)
+                finally:
+                    _depth[0] -= 1
+                for e, k in sub.items():
+                    sig[e] += k
+                continue
             sig[("call", n)] += 1
     return sig
+
+
+_depth = [0]
+_PAIRED = set()
+
+
+def _is_private_helper(g):
+    src = g.d.get("srcname") or g.name
+    if not _PAIRED:
+        for t in PAIRS:
+            _PAIRED.add(t[0])
+            _PAIRED.add(t[2])
+    if src in _PAIRED or g.name in _PAIRED or src in CALLEE_CANON or g.name in CALLEE_CANON:
+        return False
+    if g.name.startswith(("_OS_", "_VLO_", "yaep_")):
+        return False
+    return True
 
 
 def _find_cxx(m, module, srcname):
@@ -307,10 +340,10 @@ EXPECTED = {
     ("expand_hash_table", "x", ("call", "free_object")): "C++: the temporary table object is returned to operator delete (C: yaep_free), plus the cleanup of a throwing constructor",
     ("expand_hash_table", "c", ("call", "yaep_free")): "C releases the temporary table object with yaep_free; C++ with operator delete",
     ("_OS_create_function", "x", ("store", "os_alloc", "value")): "the C macro OS_CREATE stores the allocator before calling the function",
-    ("_OS_add_string_function", "c", ("cmp", "ugt", "1", "-1*os_top_object_start + os_top_object_free")): "C expands OS_TOP_SHORTEN inline; C++ calls top_shorten (compared by the probe pair)",
+    ("_OS_add_string_function", "c", ("cmp", "ult", "-1*os_top_object_start + os_top_object_free", "1")): "C expands OS_TOP_SHORTEN inline; C++ calls top_shorten (compared by the probe pair)",
     ("_OS_add_string_function", "c", ("store", "os_top_object_free", "value")): "C expands OS_TOP_SHORTEN inline; C++ calls top_shorten",
     ("_OS_add_string_function", "x", ("call", "os_top_shorten")): "C expands OS_TOP_SHORTEN inline; C++ calls top_shorten",
-    ("_VLO_add_string_function", "c", ("cmp", "ugt", "1", "-1*vlo_start + vlo_free")): "C expands VLO_SHORTEN inline; C++ calls shorten",
+    ("_VLO_add_string_function", "c", ("cmp", "ult", "-1*vlo_start + vlo_free", "1")): "C expands VLO_SHORTEN inline; C++ calls shorten",
     ("_VLO_add_string_function", "c", ("store", "vlo_free", "value")): "C expands VLO_SHORTEN inline; C++ calls shorten",
     ("_VLO_add_string_function", "x", ("call", "vlo_shorten")): "C expands VLO_SHORTEN inline; C++ calls shorten",
 }
@@ -374,7 +407,7 @@ PROBE_PAIRS = [
 ]
 
 PROBE_EXPECTED = {
-    ("p_VLO_CREATE", "c", ("cmp", "ne", "0", "initial_length")): "identical test; the C++ constructor spells the parameter differently",
+    ("p_VLO_CREATE", "c", ("cmp", "eq", "0", "initial_length")): "identical test; the C++ constructor spells the parameter differently",
 }
 
 
